@@ -8,7 +8,7 @@ from engine.symdrv import Violation
 from engine import stubs, symloop
 
 ANCHORS = ["mpf/core/data_manager.py", "mpf/core/file_manager.py", "mpf/file_interfaces/yaml_interface.py", "mpf/core/machine_vars.py"]
-FUNCTIONS = ["DataManager.save_all/_trigger_save/_writing_thread", "FileManager.save (temp file + os.replace + is_busy)", "MachineVariables.configure_machine_var/set_machine_var/"
+FUNCTIONS = ["DataManager.save_all/_trigger_save/_writing_thread", "FileManager.save (temp file + os.replace + is_busy)", "YamlInterface.save (real ruamel dump onto a failing stream)", "MachineVariables.configure_machine_var/set_machine_var/"
              "_write_machine_vars_to_disk/load_machine_vars"]
 EXPLANATION = ("Bounded symbolic execution (CrossHair/z3) of the real writer thread run sequentially: every access to state shared with the main thread "
                "(time.sleep, the dirty event, the stop flag, FileManager.is_busy, the deepcopy of the data, the file write) first runs an environment step in which the "
@@ -21,7 +21,8 @@ BOUNDS = {"quick": {"environment_choices": 7, "saves": "<=3", "crash_index": "[0
           "thorough": {"environment_choices": 9, "saves": "<=4", "crash_index": "[0,20]"}}
 ASSUMPTIONS = ["thread model: interleavings only matter at shared accesses; real thread scheduling is not run",
                "process-crash model: completed primitives are kept (no power-loss reordering; the code has no fsync)",
-               "serialisation in the in-memory interface is json.dumps of concrete version dictionaries (ruamel itself is C/regex code: 'all YAML value types' is not decided here)",
+               "yaml_save scenario: the real YamlInterface.save/ruamel dump with concrete data; the stream fails with OSError after a symbolic number of characters",
+               "writer_thread scenario: serialisation in the in-memory interface is json.dumps of concrete version dictionaries (ruamel itself is C/regex code: 'all YAML value types' is not decided here)",
                "machine variable times are ints in seconds"]
 BUDGET = {"quick": 100, "thorough": 600}
 
@@ -211,6 +212,109 @@ def _last_attempt_failed(fs, fail_save):
     return fs.saves == fail_save
 
 
+def body_yaml(S, loop, part):
+    """the real FileManager.save + YamlInterface.save (ruamel) on an in-memory file system whose stream fails after a symbolic number of
+    characters during a symbolic save: no torn file, and the saves after the failed one are written"""
+    import mpf.core.file_manager as fmmod
+    import mpf.file_interfaces.yaml_interface as yi
+    from mpf.core.file_manager import FileManager
+    from ruamel import yaml as ryaml
+    files = {}
+    n_saves = part["saves"]
+    fail_k = S.int("failing_save", 1, n_saves)
+    fail_after = S.int("fail_after_chars", 0, part["max_chars"])
+    state = {"save": 0}
+    target = "/data/x.yaml"
+
+    class F:
+        encoding = "utf8"           # a text-mode file, like open(filename, 'w', encoding='utf8')
+
+        def __init__(self, name):
+            self.name, self.n = name, 0
+            self.failing = state["save"] == fail_k          # the device is full while this file is open
+            self.closed = False
+            files[name] = ""
+
+        def write(self, text):
+            if self.closed:
+                raise ValueError("I/O operation on closed file.")
+            if self.failing and self.n + len(text) > fail_after:
+                files[self.name] += text[:max(0, fail_after - self.n)]
+                self.n = fail_after
+                raise OSError(28, "No space left on device")
+            self.n += len(text)
+            files[self.name] += text
+            return len(text)
+
+        def flush(self):
+            pass
+
+        def close(self):
+            self.closed = True
+
+        def __enter__(self):
+            return self
+
+        def __exit__(self, *a):
+            self.closed = True
+            return False
+
+    def fake_open(name, mode="r", **kwargs):
+        if "w" not in mode:
+            raise OSError("read not modelled")
+        return F(name)
+
+    class ShimOS:
+        path = os.path
+        sep = os.sep
+
+        @staticmethod
+        def replace(a, b):
+            files[b] = files.pop(a)
+    saved = (fmmod.os, FileManager.file_interfaces, FileManager.initialized, FileManager.is_busy)
+    fmmod.os = ShimOS
+    yi.open = fake_open
+    if hasattr(yi, "_yaml"):
+        # every path is a fresh process: module-level dumper state must not leak from the previous path
+        yi._yaml = ryaml.YAML(typ='safe')
+        yi._yaml.default_flow_style = False
+    FileManager.file_interfaces = {".yaml": yi.YamlInterface()}
+    FileManager.initialized = True
+    FileManager.is_busy = False
+    good = None
+    written = 0
+    try:
+        for k in range(1, n_saves + 1):
+            state["save"] = k
+            data = {"v": k, "payload": "x" * 10, "nested": {"list": [1, 2.5, None, True], "s": "a: b"}}
+            try:
+                FileManager.save(target, data)
+                good = data
+                written += 1
+            except (OSError, ValueError) as e:
+                if k != fail_k:
+                    raise Violation("one-failed-write-does-not-stop-later-saves", "YamlInterface.save", "save %d raised %r although only save %d was made to fail (after %s characters)" % (k, e, fail_k, fail_after))
+            if FileManager.is_busy:
+                raise Violation("one-failed-write-does-not-stop-later-saves", "FileManager.save", "is_busy left set after save %d" % k)
+            disk = files.get(target)
+            if good is None:
+                if disk is not None:
+                    raise Violation("file-is-never-torn", "FileManager.save", "target exists (%r) although no save has succeeded" % disk)
+            else:
+                try:
+                    back = ryaml.YAML(typ='safe').load(disk)
+                except Exception as e:  # pylint: disable=broad-except
+                    back = "unparsable: %r" % e
+                if back != good:
+                    raise Violation("file-is-never-torn" if k == fail_k else "on-disk-exactly-as-last-saved", "FileManager.save",
+                                    "after save %d (failing save %d after %s chars) the target holds %r, last complete version %r" % (k, fail_k, fail_after, back, good))
+    finally:
+        fmmod.os, FileManager.file_interfaces, FileManager.initialized, FileManager.is_busy = saved
+        del yi.open
+    S.note("nontrivial", written >= 1)
+    S.note("failing_save", fail_k)
+
+
 def body_vars(S, loop, part):
     """persistent machine variables reload with equal values unless their expiry time has passed"""
     from mpf.core.machine_vars import MachineVariables
@@ -293,4 +397,5 @@ def scenarios(tier):
               dict(choices=n, crash=False, fail=True, max_crash=mc), dict(choices=n - 1, crash=True, fail=True, max_crash=mc)]
     pb = 80 if tier == "quick" else 400
     return [Scenario("writer_thread", setup, body_thread, tparts, teardown=teardown, part_budget=pb, per_path_timeout=30),
+            Scenario("yaml_save", setup, body_yaml, [dict(saves=3, max_chars=30 if tier == "quick" else 120)], teardown=teardown, part_budget=pb, per_path_timeout=30),
             Scenario("machine_vars", setup, body_vars, [dict()], teardown=teardown, part_budget=pb, per_path_timeout=30)]
